@@ -419,5 +419,14 @@ def unconfigureGen (cfg : Cfg) (st : St) (impl : String) : St :=
 configuration succeeded, and `catch_warnings_for_item` runs the task inside `warnings.catch_warnings()` -/
 def frameFactsOk : Bool := warningsIsolated && buildUnconfigureUnconditional && Generated.unconfigureAfterLadder
 
+/-! ### from `task.report_sections` to `report.sections` (reports.py) -/
+
+/-- The sections of the execution report, for a succeeding (`from_task`) and a failing (`from_task_and_exception`) task: the
+task's `report_sections` list itself — every section, unfiltered, unmodified. Anything else the model cannot speak about. -/
+def reportSectionsGen (failed : Bool) (secs : List Sec) : Option (List Sec) :=
+  match reportSections with
+  | [ok, fail] => if (if failed then fail else ok) == "task.report_sections" then some secs else none
+  | _ => none
+
 end Gen
 end Pytask.Capture
